@@ -600,8 +600,8 @@ class Interp(OpsMixin, BuiltinsMixin):
                 # an exception raised by an external binding: it is an Exception
                 # (and whatever builtin class the stand-in says it derives from)
                 bases = getattr(e.exc, "exc_bases", ("Exception", "BaseException"))
-                if ty.name in bases:
-                    return True
+                if bases == "*" or ty.name in bases:
+                    return True          # "*": an error of a type the stand-in does not fix (matches any handler)
         return False
 
     # loops -------------------------------------------------------------
